@@ -42,7 +42,8 @@ ASSUMPTIONS = [
 def gen_case(r, index, tier):
     W = r.choice([4, 6, 8, 10, 12, 20])
     H = max(2, int(round(W * r.choice([0.2, 0.5, 0.75, 1, 1, 1.5, 2, 5]))))
-    die = {"family": r.choice(["dyadic", "decimal"]), "scale_exp": r.choice([0, 0, 1]), "nx": W, "ny": H, "regions": []}
+    die = {"family": r.choice(["dyadic", "decimal"]), "scale_exp": r.weighted([(0, 6), (1, 3), (3, 1), (9, 1)]), "nx": W, "ny": H,
+           "regions": []}
     nmov = r.randint(4, 9)
     nl = designs.gen_netlist(r, die, nmods=nmov + r.randint(0, 3), kinds=["soft", "soft", "soft", "hard", "fixed"],
                              allow_terminals=False, need_centers=True, connected=True, min_movable=nmov, allow_regions=False)
@@ -53,6 +54,9 @@ def gen_case(r, index, tier):
                               "center": (r.choice([0, 2 * W, r.randint(0, 2 * W)]), r.choice([0, 2 * H, r.randint(0, 2 * H)]))})
         other = r.choice([m["name"] for m in nl["modules"] if m["name"] != name])
         nl["nets"].append({"mods": [name, other], "w": r.choice([1, 2, 0.5])})
+    # now and then one net is extremely weak compared with the others (weights spanning seven orders of magnitude)
+    if nl["nets"] and r.chance(0.04):
+        r.choice(nl["nets"])["w"] = 2e-07
     # discs must fit: cap soft areas
     cap = (0.45 * min(W, H)) ** 2 * math.pi
     tot = 0
@@ -170,6 +174,10 @@ def run_case(case):
     nfp = case["nfloorplans"]
     if nfp == 0 and any(m.center is None for m in probe_net.modules):
         nfp = 1
+    ws = [float(e[-1]) if not isinstance(e[-1], str) else 1.0 for e in tree["Nets"]]
+    spread = ">=1e5" if ws and max(ws) / min(ws) >= 1e5 else "<1e5"
+    if spread == ">=1e5":
+        probe("netlist_with_net_weights_spanning_5_orders_of_magnitude")
     good = 0
     tol = 1e-9 * max(W, H)
     sig.append(digest(tree))
@@ -202,7 +210,8 @@ def run_case(case):
             sig.append((t["seed"], mode, "raised"))
             if mode == "mt":
                 viol.append({"property": "C14", "clause": "spectral placement does not position the modules (raised)",
-                             "key": dict(key, exc=type(e).__name__), "detail": {"seed": t["seed"], "exc": repr(e)[:200],
+                             "key": dict(key, exc=type(e).__name__, net_weight_spread=spread),
+                             "detail": {"seed": t["seed"], "exc": repr(e)[:200],
                                                                                "nfloorplans": nfp}})
             else:
                 probe("unrealised_degenerate_start_" + type(e).__name__)
